@@ -503,6 +503,7 @@ func (e *Engine) checkTyped(c *core.Ctx, id string) ([]core.Violation, map[strin
 	opsSeen := map[string]bool{}
 	variantsSeen := map[string]bool{}
 	distinct := map[string]bool{}
+	syncPoints, syncYields := 0, 0
 	configured, fired := map[string]int{}, map[string]int{}
 	type failure struct {
 		i int
@@ -532,6 +533,8 @@ func (e *Engine) checkTyped(c *core.Ctx, id string) ([]core.Violation, map[strin
 			if r.Switches > 0 {
 				distinct[r.SchedHash] = true
 			}
+			syncPoints += r.SyncPoints
+			syncYields += r.SyncYields
 			st := stats[pkg]
 			if st == nil {
 				st = &typedStats{}
@@ -667,7 +670,7 @@ func (e *Engine) checkTyped(c *core.Ctx, id string) ([]core.Violation, map[strin
 	info := map[string]any{
 		"packages": len(pkgs), "runs": len(scs), "race_runs": len(raceScs), "race_reports": raceReports,
 		"per_package": stats, "operations_exercised": len(opsSeen), "operation_response_variants_reached": len(variantsSeen),
-		"delivery_demanded_for": demanded, "distinct_schedules": len(distinct),
+		"delivery_demanded_for": demanded, "distinct_schedules": len(distinct), "sync_operation_points": syncPoints, "sync_operation_preemptions": syncYields,
 		"fault_kinds_configured": configured, "fault_kinds_fired": fired,
 		"rule": "values of the generated request, parameter and response types are made by reflection from the call's seed (core domain: short alphanumeric text, small numbers, whole-second UTC times, 1-3 element arrays; edge: delimiters, empty text and arrays, extremes of every numeric width, far instants); the handler's, the middleware's and the caller's copies are compared as trees with what was supplied",
 	}
